@@ -347,6 +347,9 @@ static int usage() {
 }
 
 int main(int argc, char **argv) {
+  // first of all: QSexactStart() may install its own GMP allocator (slab pools in the optimised build);
+  // no rational may be created before that
+  sut_global_init();
   register_all_properties();
   if (argc < 2) return usage();
   std::string mode = argv[1];
@@ -382,6 +385,8 @@ int main(int argc, char **argv) {
         text = std::string(1, (char)('0' + (k & 1))) + (mps ? emit_mps(t, m, st) : emit_lp(t, m, st));
       }
       write_file(dir + "/seed" + std::to_string(k), text);
+      // a truncated twin (no final newline): exercises the end-of-buffer paths of the scanners
+      if (text.size() > 8) write_file(dir + "/trunc" + std::to_string(k), text.substr(0, 2 + (size_t)(x >> 20) % (text.size() - 2)));
     }
     return 0;
   }
